@@ -32,7 +32,8 @@ CMP_LEAN = {">=": ".of .ge", "<=": ".of .le", "!=": ".of .ne", "<": ".of .lt", "
             "*": ".star", None: ".pyNone"}
 LEAN_TYPE = {"Con": "Con V", "ConOpt": "Option (Con V)", "ConList": "List (Con V)", "PairList": "List (Con V × Con V)",
              "Ver": "V", "VerOpt": "Option V", "Cmp": "CmpVal", "Bool": "Bool", "Pair": "Con V × Con V",
-             "ConSet": "List (Con V)", "Nat": "Nat"}
+             "ConSet": "List (Con V)", "Nat": "Nat", "Range": "List (Con V)", "VerList": "List V", "VerListList": "List (List V)",
+             "ConOptList": "List (Option (Con V))", "RangeOpt": "Option (List (Con V))", "RangeClass": "Unit"}
 ERRORS = {"ValueError", "TypeError", "InvalidConstraintsError", "KeyError", "AttributeError", "IndexError"}
 
 
@@ -155,6 +156,10 @@ class Tr:
             if node.id not in env:
                 raise Unsupported("unknown name %s" % node.id)
             return node.id, env[node.id], True
+        if isinstance(node, ast.Attribute) and isinstance(node.value, ast.Name) and node.value.id in ("cls", "self") \
+                and node.attr in ("scheme", "version_class") and env.get(node.value.id) in ("Range", "RangeClass"):
+            # class attributes that every concrete range class sets: truthy
+            return "true", "Bool", True
         if isinstance(node, ast.Attribute):
             vt, ty, pure = self.expr(node.value, env)
             if ty == "Con" and not pure and node.attr in ("comparator", "version"):
@@ -166,6 +171,8 @@ class Tr:
                     return "(comparator %s)" % vt, "Cmp", pure
                 if ty == "ConOpt" and pure:
                     return "(comparatorOpt %s)" % vt, "Cmp", False
+            if node.attr == "constraints" and ty == "Range":
+                return vt, "ConList", pure
             if node.attr == "version":
                 if ty == "Con":
                     return "(PyRt.version %s)" % vt, "VerOpt", pure
@@ -174,6 +181,11 @@ class Tr:
             raise Unsupported("attribute .%s of %s" % (node.attr, ty))
         if isinstance(node, ast.Subscript) and not (isinstance(node.value, ast.Name) and node.value.id in self.fn.dicts):
             vt, ty, pure = self.expr(node.value, env)
+            if ty == "VerList" and pure and isinstance(node.slice, ast.Constant) and node.slice.value == 0:
+                return "(index %s 0)" % vt, "Ver", False
+            if ty == "VerList" and pure and isinstance(node.slice, ast.UnaryOp) and isinstance(node.slice.op, ast.USub) \
+                    and isinstance(node.slice.operand, ast.Constant) and node.slice.operand.value == 1:
+                return "(last %s)" % vt, "Ver", False
             if ty == "ConList" and pure and isinstance(node.slice, ast.Constant) and node.slice.value == 0:
                 return "(index %s 0)" % vt, "Con", False
             if ty == "ConList" and pure and isinstance(node.slice, ast.UnaryOp) and isinstance(node.slice.op, ast.USub) \
@@ -232,6 +244,8 @@ class Tr:
                         return "(%s o %s %s)" % (f, lt_, rt_), "Bool", False
                     v = fn.tmp()
                     return "(%s >>= fun %s => %s o %s %s)" % (rt_, v, f, lt_, v), "Bool", False
+            if lty == "Ver" and rty == "Ver" and lp and rp and isinstance(op, ast.Eq):
+                return "(o.eq %s %s)" % (lt_, rt_), "Bool", True
             if lty == "Ver" and rty == "Con" and isinstance(op, ast.In):
                 # `version in constraint`: VersionConstraint.__contains__
                 name = fn.calls["__contains__"][0]
@@ -276,13 +290,19 @@ class Tr:
             it, ity, ip = self.expr(g.iter, env)
             if not ip:
                 raise Unsupported("impure iterable in comprehension")
-            env2, binder = self.bind_target(g.target, ity, env)
+            env2, binder = (self.bind_target(g.target, ity, env) if ity != "VerList" else (env, g.target.id))
             conds = []
             for c in g.ifs:
                 ct, _cty, cp = self.truth(c, env2)
                 if not cp:
                     raise Unsupported("impure condition in comprehension")
                 conds.append(ct)
+            if ity == "VerList" and not g.ifs and isinstance(g.target, ast.Name):
+                env3 = dict(env)
+                env3[g.target.id] = "Ver"
+                et, ety, ep = self.expr(node.elt, env3)
+                if ety == "Ver" and ep and et == g.target.id:
+                    return it, "VerList", True
             if _src(node.elt) != _src(g.target) and not (isinstance(node.elt, ast.Tuple) and _src(node.elt).strip("()") == _src(g.target).strip("()")):
                 raise Unsupported("comprehension that maps: " + _src(node))
             return "(%s.filter (fun %s => %s))" % (it, binder, " && ".join(conds) or "true"), ity, True
@@ -297,6 +317,12 @@ class Tr:
             a, b = target.elts[0].id, target.elts[1].id
             env2[a] = env2[b] = "Con"
             return env2, "(%s, %s)" % (a, b)
+        if ity == "VerList" and isinstance(target, ast.Name):
+            env2[target.id] = "Ver"
+            return env2, target.id
+        if ity == "VerListList" and isinstance(target, ast.Name):
+            env2[target.id] = "VerList"
+            return env2, target.id
         raise Unsupported("loop target %s over %s" % (_src(target), ity))
 
     def truth(self, node, env):
@@ -304,7 +330,7 @@ class Tr:
         t, ty, pure = self.expr(node, env)
         if ty == "Bool":
             return t, ty, pure
-        if ty in ("ConList", "PairList") and pure:
+        if ty in ("ConList", "PairList", "VerList", "VerListList", "ConSet") and pure:
             return "(truthy %s)" % t, "Bool", True
         raise Unsupported("truth value of %s" % ty)
 
@@ -343,6 +369,48 @@ class Tr:
                     return "(sortCons o %s)" % t, "ConList", False
             if f.id in fn.calls:
                 return self.call_known(f.id, node.args, env)
+        if isinstance(f, ast.Name) and f.id == "sorted" and len(node.args) == 1:
+            t, ty, p = self.expr(node.args[0], env)
+            if ty == "VerList" and p:
+                return "(sortVers o %s)" % t, "VerList", True
+        if isinstance(f, ast.Name) and f.id == "VersionConstraint" and not node.args:
+            kw = {k.arg: k.value for k in node.keywords}
+            if set(kw) <= {"comparator", "version"} and "version" in kw:
+                vt, vty, vp = self.expr(kw["version"], env)
+                if vty == "Ver" and vp:
+                    if "comparator" in kw:
+                        ct, cty, cp = self.expr(kw["comparator"], env)
+                        if cty == "Cmp" and cp:
+                            return "(mkCon %s (some %s))" % (ct, vt), "Con", False
+                    else:
+                        # the default comparator of the attrs class
+                        dflt = self.class_defaults.get("comparator")
+                        if dflt in CMP_LEAN:
+                            return "(mkCon (CmpVal%s) (some %s))" % (CMP_LEAN[dflt], vt), "Con", False
+            raise Unsupported("constructor call " + _src(node))
+        if isinstance(f, ast.Attribute) and f.attr == "__class__" and isinstance(f.value, ast.Name) and env.get(f.value.id) == "Range" \
+                and not node.args and [k.arg for k in node.keywords] == ["constraints"]:
+            # RangeClass(constraints=xs): __attrs_post_init__ sorts
+            t, ty, p = self.expr(node.keywords[0].value, env)
+            if ty == "ConList" and p:
+                return "(mkRangeOfList o %s)" % t, "Range", False
+            if ty == "ConOptList" and p:
+                return "(mkRangeOfOpts o %s)" % t, "Range", False
+            raise Unsupported("range constructor over %s" % ty)
+        if isinstance(f, ast.Name) and f.id == "cls" and env.get("cls") == "RangeClass" and not node.args \
+                and [k.arg for k in node.keywords] == ["constraints"]:
+            t, ty, p = self.expr(node.keywords[0].value, env)
+            if ty == "ConList" and p:
+                return "(mkRangeOfList o %s)" % t, "Range", False
+        if isinstance(f, ast.Attribute) and f.attr == "version_class" and isinstance(f.value, ast.Name) and f.value.id in ("self", "cls") \
+                and len(node.args) == 1:
+            # self.version_class(text): the versions are given already constructed (construction is Layer A's business)
+            t, ty, p = self.expr(node.args[0], env)
+            if ty == "Ver":
+                return t, "Ver", p
+        if isinstance(f, ast.Attribute) and f.attr in fn.calls and not (isinstance(f.value, ast.Name) and f.value.id in ("cls",)):
+            # method call on an expression: x.method(args)
+            return self.call_known(f.attr, [f.value] + list(node.args), env, allow_impure_first=True)
         if isinstance(f, ast.Attribute) and f.attr == "__class__" and isinstance(f.value, ast.Name) and env.get(f.value.id) == "Con" \
                 and not node.args and {k.arg for k in node.keywords} == {"comparator", "version"}:
             # VersionConstraint(comparator=c, version=v): __attrs_post_init__ refuses an unknown comparator text
@@ -360,18 +428,26 @@ class Tr:
             return self.call_known(f.attr, args, env)
         raise Unsupported("call " + _src(node))
 
-    def call_known(self, pyname, arg_nodes, env):
+    def call_known(self, pyname, arg_nodes, env, allow_impure_first=False):
         fn = self.fn
-        lean, rty, perm = fn.calls[pyname]
-        args = []
-        for a in arg_nodes:
-            t, _ty, p = self.expr(a, env)
+        args, binds = [], ""
+        first_ty = None
+        for i, a in enumerate(arg_nodes):
+            t, ty, p = self.expr(a, env)
+            if i == 0:
+                first_ty = ty
             if not p:
-                raise Unsupported("impure argument")
+                if not (allow_impure_first and i == 0):
+                    raise Unsupported("impure argument")
+                v = fn.tmp()
+                binds = "%s >>= fun %s => " % (t, v)
+                t = v
             args.append(t)
+        key = (pyname, first_ty) if (pyname, first_ty) in fn.calls else pyname
+        lean, rty, perm = fn.calls[key]
         if perm:
             fn.uses_perm = True
-        return "(%s o %s%s)" % (lean, "perm " if perm else "", " ".join(args)), rty, False
+        return "(%s%s o %s%s)" % (binds, lean, "perm " if perm else "", " ".join(args)), rty, False
 
     def length(self, node, env):
         """len(x) as a natural number"""
@@ -418,6 +494,19 @@ class Tr:
                             t = "(%s >>= fun %s => .ok (some %s))" % (t, v, v)
                     else:
                         raise Unsupported("return of %s" % ty)
+                elif self.fn.ret == "RangeOpt":
+                    if ty == "None":
+                        t = "(none : Option (List (Con V)))"
+                    elif ty == "Range":
+                        if pure:
+                            t = "(some %s)" % t
+                        else:
+                            v = fn.tmp()
+                            t = "(%s >>= fun %s => .ok (some %s))" % (t, v, v)
+                    else:
+                        raise Unsupported("return of %s" % ty)
+                elif ty == "Name:NotImplementedError":
+                    raise Unsupported("return NotImplementedError")
                 elif ty != self.fn.ret:
                     raise Unsupported("return of %s where %s is expected" % (ty, self.fn.ret))
             return self.ret(t, pure)
@@ -431,6 +520,9 @@ class Tr:
             return fall(env)
         if isinstance(s, ast.If):
             ct, _cty, cpure = self.truth(s.test, env)
+            if cpure and ct.replace("(", "").replace(")", "").replace(" ", "") in ("!true||!true", "!true"):
+                # a guard on class attributes that every concrete class sets: the branch is not reachable
+                return self.block((s.orelse or []) + rest, env, fall)
             # statements after the `if` are duplicated into the branches that can fall through
             then = self.block(s.body + rest, env, fall) if _falls(s.body) else self.block(s.body, env, fall)
             if s.orelse:
@@ -463,6 +555,12 @@ class Tr:
                     if not any(isinstance(x, ast.Name) and x.id in used for x in targets):
                         return self.block(rest, env, fall)
                     return self.block(rest, env, fall)
+            if isinstance(s.value, ast.List) and not s.value.elts and len(targets) == 1 and isinstance(targets[0], ast.Name) \
+                    and self.var_types.get(targets[0].id) in ("VerList", "VerListList", "ConOptList", "ConList"):
+                ty0 = self.var_types[targets[0].id]
+                env2 = dict(env)
+                env2[targets[0].id] = ty0
+                return "let %s : %s := []\n" % (targets[0].id, LEAN_TYPE[ty0]) + self.block(rest, env2, fall)
             t, ty, pure = self.expr(s.value, env)
             env2 = dict(env)
             if all(isinstance(x, ast.Name) for x in targets):
@@ -510,6 +608,17 @@ class Tr:
             if meth == "pop" and not args and ty == "ConList":
                 # (of a non-empty list: every `pop()` translated here is guarded by the truth value of the list)
                 return "let %s : %s := %s.dropLast\n" % (name, LEAN_TYPE[ty], name) + self.block(rest, env, fall)
+            if meth == "append" and len(args) == 1 and ty in ("VerList", "VerListList", "ConOptList", "ConList"):
+                t, aty, pure = self.expr(args[0], env)
+                want = {"VerList": "Ver", "VerListList": "VerList", "ConOptList": "ConOpt", "ConList": "Con"}[ty]
+                if aty == want or (want == "ConOpt" and aty == "Con"):
+                    if want == "ConOpt" and aty == "Con":
+                        t = ("(some %s)" % t) if pure else None
+                    if pure:
+                        return "let %s : %s := (%s ++ [%s])\n" % (name, LEAN_TYPE[ty], name, t) + self.block(rest, env, fall)
+                    v = fn.tmp()
+                    return "%s >>= fun %s =>\nlet %s : %s := (%s ++ [%s])\n" % (self.expr(args[0], env)[0], v, name, LEAN_TYPE[ty], name, v) \
+                        + self.block(rest, env, fall)
             if meth in ("append", "add") and len(args) == 1 and ty in ("ConList", "ConSet"):
                 t, aty, pure = self.expr(args[0], env)
                 if aty == "Con" and pure:
@@ -566,7 +675,7 @@ class Tr:
         captured = [n for n in env if n not in state]
         sty = " × ".join(LEAN_TYPE[env[n]] for n in state) or "Unit"
         stpat = "(" + ", ".join(state) + ")" if len(state) > 1 else (state[0] if state else "_st")
-        item_ty = {"ConList": "Con", "PairList": "Pair"}[ity]
+        item_ty = {"ConList": "Con", "PairList": "Pair", "VerList": "Ver", "VerListList": "VerList"}[ity]
         env_b = dict(env)
         pre = ""
         if isinstance(s.target, ast.Tuple):
@@ -574,6 +683,9 @@ class Tr:
                 vty = self.var_types.get(e.id, "Con")
                 env_b[e.id] = vty
                 pre += "let %s : %s := %s\n" % (e.id, LEAN_TYPE[vty], ("some item.%d" if vty == "ConOpt" else "item.%d") % (i + 1))
+        elif item_ty in ("Ver", "VerList"):
+            env_b[s.target.id] = item_ty
+            pre += "let %s : %s := item\n" % (s.target.id, LEAN_TYPE[item_ty])
         else:
             vty = self.var_types.get(s.target.id, "Con")
             env_b[s.target.id] = vty
@@ -737,11 +849,20 @@ def _var_types(fdef, params):
             return "Cmp"
         if isinstance(v, ast.Call) and isinstance(v.func, ast.Name) and v.func.id == "set" and not v.args:
             return "ConSet"
-        if isinstance(v, (ast.List, ast.ListComp)):
+        if isinstance(v, ast.ListComp):
             return "ConList"
         if isinstance(v, ast.Name):
             return env.get(v.id)
         return None
+    def elem_type(v, env):
+        if isinstance(v, ast.Name):
+            return env.get(v.id)
+        if isinstance(v, ast.Call) and isinstance(v.func, ast.Attribute) and v.func.attr == "invert":
+            return "ConOpt"
+        if isinstance(v, ast.Call) and isinstance(v.func, ast.Name) and v.func.id == "VersionConstraint":
+            return "Con"
+        return None
+    LISTOF = {"Ver": "VerList", "VerList": "VerListList", "ConOpt": "ConOptList", "Con": "ConList"}
     changed = True
     rounds = 0
     while changed and rounds < 5:
@@ -757,16 +878,34 @@ def _var_types(fdef, params):
             if isinstance(n, ast.For):
                 it = n.iter
                 elts = n.target.elts if isinstance(n.target, ast.Tuple) else [n.target]
+                ity = types.get(it.id) if isinstance(it, ast.Name) else None
                 for e in elts:
                     if isinstance(e, ast.Name):
-                        join(e.id, "Con")
+                        if ity == "VerList":
+                            types[e.id] = "Ver"
+                        elif ity == "VerListList":
+                            types[e.id] = "VerList"
+                        elif e.id not in types or types[e.id] in ("Con", "ConOpt", "NoneT"):
+                            join(e.id, "Con")
+            if isinstance(n, ast.Expr) and isinstance(n.value, ast.Call) and isinstance(n.value.func, ast.Attribute) \
+                    and n.value.func.attr == "append" and isinstance(n.value.func.value, ast.Name) and n.value.args:
+                et = elem_type(n.value.args[0], types)
+                if et in LISTOF:
+                    types[n.value.func.value.id] = LISTOF[et]
+            if isinstance(n, ast.Assign) and len(n.targets) == 1 and isinstance(n.targets[0], ast.Name):
+                v = n.value
+                if isinstance(v, ast.Call) and isinstance(v.func, ast.Name) and v.func.id == "sorted":
+                    types[n.targets[0].id] = "VerList" if fdef.name == "normalize" else types.get(n.targets[0].id, "ConList")
+                if isinstance(v, ast.Subscript) and isinstance(v.value, ast.Name) and types.get(v.value.id) == "VerList":
+                    types[n.targets[0].id] = "Ver"
         changed = before != types
     return {k: ("ConOpt" if v == "NoneT" else v) for k, v in types.items()}
 
 
-def translate_function(fdef, lean_name, params, ret, calls):
+def translate_function(fdef, lean_name, params, ret, calls, class_defaults=None, src="version_constraint.py"):
     fn = Fn(fdef.name, lean_name, params, ret, calls)
     tr = Tr(fn)
+    tr.class_defaults = class_defaults or {}
     tr.var_types = _var_types(fdef, params)
     tr.rho = LEAN_TYPE[ret]
     tr.depth = 0
@@ -774,7 +913,7 @@ def translate_function(fdef, lean_name, params, ret, calls):
     body = tr.block(fdef.body, env, lambda e: ".error .TypeError  -- falls off the end (returns None)")
     sig = " (perm : List (Con V) → List (Con V))" + "".join(" (%s : %s)" % (n, LEAN_TYPE[t]) for n, t in params)
     text = "".join(t + "\n" for t in fn.tables) + "".join(d + "\n" for d in fn.defs)
-    text += "/-- `%s` of univers/version_constraint.py, translated -/\ndef %s {V} (o : VOps V)%s : Except Err (%s) :=\n%s\n" % (
+    text += ("/-- `%s` of univers/" + src + ", translated -/\ndef %s {V} (o : VOps V)%s : Except Err (%s) :=\n%s\n") % (
         fdef.name, lean_name, sig, LEAN_TYPE[ret], _ind(body))
     return text
 
@@ -797,33 +936,67 @@ open Univers Univers.PyRt
 CON_CONTAINS = ("/-- `VersionConstraint.__contains__` (the class guard is C14's business): `comp_operator(version, self.version)` -/\n"
                 "def con_contains {V} (o : VOps V) (perm : List (Con V) → List (Con V)) (self : Con V) (version : V) : Except Err Bool := .ok (self.sat o version)\n\n")
 
-# python function -> (class or None, generated file, lean name, parameters, result type, imports)
+# (source file, python function, class or None, generated file, lean name, parameters, result type, imports)
+VC, VRG = "version_constraint.py", "version_range.py"
 JOBS = [
-    ("contains_version", None, "PyContainsVersion", "contains_version", [("version", "Ver"), ("constraints", "ConList")], "Bool", []),
-    ("validate_comparators", None, "PyValidateComparators", "validate_comparators", [("constraints", "ConList")], "Bool", []),
-    ("deduplicate", None, "PyDeduplicate", "deduplicate", [("constraints", "ConList")], "ConList", []),
-    ("simplify_constraints", None, "PySimplifyConstraints", "simplify_constraints", [("constraints", "ConList")], "ConList", []),
-    ("is_star", "VersionConstraint", "PyConIsStar", "con_is_star", [("self", "Con")], "Bool", []),
-    ("invert", "VersionConstraint", "PyConInvert", "con_invert", [("self", "Con")], "ConOpt", ["PyConIsStar"]),
-    ("validate", "VersionConstraint", "PyConValidate", "con_validate", [("constraints", "ConList")], "Bool", ["PyValidateComparators"]),
-    ("simplify", "VersionConstraint", "PyConSimplify", "con_simplify", [("constraints", "ConList")], "ConList",
+    (VC, "contains_version", None, "PyContainsVersion", "contains_version", [("version", "Ver"), ("constraints", "ConList")], "Bool", []),
+    (VC, "validate_comparators", None, "PyValidateComparators", "validate_comparators", [("constraints", "ConList")], "Bool", []),
+    (VC, "deduplicate", None, "PyDeduplicate", "deduplicate", [("constraints", "ConList")], "ConList", []),
+    (VC, "simplify_constraints", None, "PySimplifyConstraints", "simplify_constraints", [("constraints", "ConList")], "ConList", []),
+    (VC, "is_star", "VersionConstraint", "PyConIsStar", "con_is_star", [("self", "Con")], "Bool", []),
+    (VC, "invert", "VersionConstraint", "PyConInvert", "con_invert", [("self", "Con")], "ConOpt", ["PyConIsStar"]),
+    (VC, "validate", "VersionConstraint", "PyConValidate", "con_validate", [("constraints", "ConList")], "Bool", ["PyValidateComparators"]),
+    (VC, "simplify", "VersionConstraint", "PyConSimplify", "con_simplify", [("constraints", "ConList")], "ConList",
      ["PyDeduplicate", "PySimplifyConstraints"]),
+    (VRG, "is_star", "VersionRange", "PyRangeIsStar", "range_is_star", [("self", "Range")], "Bool", ["PyConIsStar"]),
+    (VRG, "invert", "VersionRange", "PyRangeInvert", "range_invert", [("self", "Range")], "RangeOpt", ["PyRangeIsStar", "PyConInvert"]),
+    (VRG, "__contains__", "VersionRange", "PyRangeContains", "range_contains", [("self", "Range"), ("version", "Ver")], "Bool",
+     ["PyContainsVersion"]),
+    (VRG, "from_versions", "VersionRange", "PyRangeFromVersions", "range_from_versions", [("cls", "RangeClass"), ("sequence", "VerList")],
+     "Range", []),
+    (VRG, "normalize", "VersionRange", "PyRangeNormalize", "range_normalize", [("self", "Range"), ("known_versions", "VerList")], "Range",
+     ["PyRangeContains"]),
 ]
 
-# callee python name -> (lean name, result type, takes perm)
+# callee python name (or (name, type of the receiver)) -> (lean name, result type, takes perm)
 CALLS = {
     "__contains__": ("con_contains", "Bool", True),
+    ("__contains__", "Range"): ("range_contains", "Bool", True),
+    "contains_version": ("contains_version", "Bool", True),
     "validate_comparators": ("validate_comparators", "Bool", True),
     "deduplicate": ("deduplicate", "ConList", True),
     "simplify_constraints": ("simplify_constraints", "ConList", True),
     "is_star": ("con_is_star", "Bool", True),
+    ("is_star", "Range"): ("range_is_star", "Bool", True),
+    "invert": ("con_invert", "ConOpt", True),
 }
+
+
+def _class_defaults(tree, cls):
+    """defaults of the attr.ib fields of a class: {field: default literal}"""
+    out = {}
+    for n in tree.body:
+        if isinstance(n, ast.ClassDef) and n.name == cls:
+            for st in n.body:
+                if isinstance(st, ast.Assign) and len(st.targets) == 1 and isinstance(st.targets[0], ast.Name) \
+                        and isinstance(st.value, ast.Call):
+                    for kw in st.value.keywords:
+                        if kw.arg == "default" and isinstance(kw.value, ast.Constant):
+                            out[st.targets[0].id] = kw.value.value
+    return out
 
 
 def generate(src_path):
     """{file name: Lean text}, {python function: status}; one generated file per function, so that a function the
-    translator cannot read (or that changed) leaves the agreement theorems of the others alone"""
-    tree = ast.parse(open(src_path).read())
+    translator cannot read (or that changed) leaves the agreement theorems of the others alone.  `src_path` is
+    version_constraint.py; version_range.py is read from the same directory."""
+    import os
+    src_dir = os.path.dirname(src_path)
+    trees = {VC: ast.parse(open(src_path).read())}
+    try:
+        trees[VRG] = ast.parse(open(os.path.join(src_dir, VRG)).read())
+    except OSError:
+        pass
     files, status = {}, {}
     MODULE_NS.clear()
     try:
@@ -837,18 +1010,23 @@ def generate(src_path):
                 MODULE_NS[k] = v
     except Exception:  # noqa: BLE001
         pass
-    for pyname, cls, fname, lean, params, ret, imports in JOBS:
-        out = [HEADER.replace("import Univers.Vers.PyRt\n", "import Univers.Vers.PyRt\n" + "".join("import Univers.Gen.%s\n" % i for i in imports))]
+    defaults = _class_defaults(trees[VC], "VersionConstraint")
+    for src, pyname, cls, fname, lean, params, ret, imports in JOBS:
+        out = [HEADER.replace("import Univers.Vers.PyRt\n", "import Univers.Vers.PyRt\n" + "".join("import Univers.Gen.%s\n" % i for i in imports))
+               .replace("version_constraint.py", src)]
         if pyname == "contains_version":
             # the isinstance guard of VersionConstraint.__contains__ is vacuous in the typed model (one version class);
             # `self.comp_operator(version, self.version)` is COMPARATORS[self.comparator] applied, i.e. `Con.sat`
             out.append(CON_CONTAINS)
+        key = (cls + "." if cls else "") + pyname
         try:
-            out.append(translate_function(_find(tree, pyname, cls), lean, params, ret, CALLS))
-            status[(cls + "." if cls else "") + pyname] = "translated"
+            if src not in trees:
+                raise Unsupported("source file not found")
+            out.append(translate_function(_find(trees[src], pyname, cls), lean, params, ret, CALLS, defaults, src))
+            status[key] = "translated"
         except (Unsupported, StopIteration) as e:
             out.append("-- `%s` could not be translated: %s\n\n" % (pyname, e or "not found"))
-            status[(cls + "." if cls else "") + pyname] = "unsupported: %s" % (e or "function not found")
+            status[key] = "unsupported: %s" % (e or "function not found")
         out.append("end Univers.Gen.LayerB\n")
         files[fname + ".lean"] = "".join(out)
     return files, status
